@@ -323,6 +323,12 @@ func (sc *specCtx) selectField(e ast.Expr, base Value, name string) Value {
 	x := sc.x
 	t := base.T
 	if pt, ok := t.Underlying().(*types.Pointer); ok {
+		if _, pp := pt.Elem().Underlying().(*types.Pointer); pp {
+			// a captured pointer variable (closure free variable): the variable's value
+			base = x.load(sc.st, x.ptrOf(base))
+			t = base.T
+			pt = t.Underlying().(*types.Pointer)
+		}
 		// through pointer: find field path (with embedding)
 		path := fieldPath(pt.Elem(), name)
 		if path == nil {
@@ -702,7 +708,14 @@ func (sc *specCtx) call(e *ast.CallExpr) Value {
 	case "foreign":
 		// the dynamic type of the value is defined outside the module (or the value is nil)
 		v := sc.eval(arg(0))
-		return mBool(Or(Eq(v.C[0], Num(0)), Lt(App("dyntype", SInt, v.C[0]), Num(0))))
+		if sc.bseq == nil {
+			sc.bseq = new(int)
+			*sc.bseq = boundCounter
+			boundCounter += 1000
+		}
+		tb := sc.bound("t")
+		noMatch := Forall([]*Term{tb}, Implies(App("pkgerr", SBool, tb), Not(App("Is", SBool, v.C[0], tb))), App("Is", SBool, v.C[0], tb))
+		return mBool(Or(Eq(v.C[0], Num(0)), And(Lt(App("dyntype", SInt, v.C[0]), Num(0)), Not(App("pkgerr", SBool, v.C[0])), noMatch)))
 	case "hastype":
 		v := sc.eval(arg(0))
 		t := sc.typeExpr(arg(1))
